@@ -3,7 +3,7 @@ import os, sys, json, time, hashlib, subprocess, shutil
 import hc
 
 V = hc.V
-CRATES = ["harness"]
+CRATES = ["harness", "harness-sched", "harness-render"]
 
 
 class Family:
@@ -144,7 +144,7 @@ def x_core2(n):
 
 PROPS = {}
 NOT_YET = {}
-HOOK_COMMITS = []
+HOOK_COMMITS = ["9877bf3e3ed6b809e1750388ee1b4a8e8957b690"]
 
 PROPS["C01"] = dict(
     level="proof",
@@ -731,6 +731,32 @@ PROPS["C17"] = dict(
                      [(81, "capture_spec", GRIS_CLASSES)])],
     trusted=VALIDATOR_TRUST,
     assumptions=["clip modes that keep the unbounded side are outside the property (skipped)"],
+)
+
+SCENE_CLASSES = {"1": "the extraction system crashed on a map within the premise", "2": "coordinate table differs from the map's coordinates",
+                 "3": "vertex entities", "4": "edge entities", "5": "face entities", "6": "dart entities",
+                 "7": "a face-corner normal is missing, superfluous, not finite or not a unit vector",
+                 "8": "a volume normal is missing, superfluous, not finite or not a unit vector"}
+PROPS["C20"] = dict(
+    level="translation_validation",
+    level_text="per-run validator written in Coq (Extract/SceneOracle2/3): a headless bevy App runs the start-up systems "
+               "extract_data_from_map / extract_data_from_3d_map on generated maps (grids, split grids, remeshed triangle meshes, convex "
+               "and non-convex polygons with boundary darts; hex grids and tet/prism/hex complexes partly 3-sewn); the validator checks "
+               "one vertex / edge / face entity per cell with the map's identifiers, one dart entity per in-use dart of a face with its "
+               "own four identifiers, every stored index pointing at the right row, the table equal to the map's coordinates (f32), and "
+               "every stored normal a finite unit vector. Proved: the validator's row lookup (C20_index_of_spec). The ECS plumbing and "
+               "the systems themselves are not modelled",
+    technique="Coq-defined validator applied to the scene extracted by a headless bevy App",
+    families=[
+        Family("scene2", "scene", lambda tier, seed: ["--mode", "scene2", "--cases", {"quick": "300", "thorough": "5000"}[tier]], None,
+               [(90, "scene2_spec", SCENE_CLASSES)], crate="harness-render"),
+        Family("scene3", "scene", lambda tier, seed: ["--mode", "scene3", "--cases", {"quick": "150", "thorough": "2500"}[tier]], None,
+               [(91, "scene3_spec", SCENE_CLASSES)], crate="harness-render"),
+    ],
+    trusted=PROPS["C01"]["trusted"][:3] + ["bevy App / World (entity spawning, queries) is exercised, not modelled",
+                                          "hook Dart::verif_ends (cfg honeycomb_verif) exposes the crate-private start/end indices"],
+    assumptions=["non-degenerate = faces of at least three sides, consecutive corners distinct, no 180-degree reversal (2D) / no collinear corner (3D)",
+                 "coordinates compared after f32 conversion with relative tolerance 2^-20; |n|^2 within 2^-10 of 1"],
 )
 
 # ---- 3-map families of the cross-dimensional properties
